@@ -22,7 +22,8 @@ EXPLANATION = (
     "(shared with C06.R7); (R7) a variable or array element that was never assigned starts as the zero / empty value of its declared type (shared with C04.R4); (R8) the values a READ / INPUT / call hands back are written to the arguments left to right (shared with C03.R3)."
     " (R10) integer + - * are computed directly, not through the negation of the mirrored operation: an operation whose result is representable does not end the program with Overflow because an intermediate value is not (shared with C06.R10)."
     " (R11) the emitter of expressions emits straight-line code (no label, no jump): every operand of every operator is evaluated whenever the expression is - there is no short circuit that would hide an operand's run-time error."
-    " (R12) the grouping rules of the expression parser (rotation predicates on every operator pair, the rotations interpreted on every chain) shared from C10.")
+    " (R12) the grouping rules of the expression parser (rotation predicates on every operator pair, the rotations interpreted on every chain) shared from C10."
+    " (R13) inside a loop of a generator function the length of a list of blocks is compared with a position only while the list is whole (nothing is taken out of it in that loop): the jump to `the next ELSEIF, or ELSE when this is the last` does not skip blocks.")
 NOT_DECIDED = ["agreement of printed output with the reference semantics for every program and value"]
 
 # operator name -> Ordering values for which the comparison holds
